@@ -76,6 +76,29 @@ func tableString(m map[string]string) string {
 }
 
 func runC02(c *Ctx) {
+	c.Rule("C02.DUPCOL", "DOM: in decodeTypedColumns a column value is skipped (the non-array case the generic path drops) only after the duplicate-name test said `first occurrence` — a repeated column key always sends the typed path to the generic decoder, whose last-key-wins result is what every replay of the raw bytes sees")
+	if fn := c.MustFunc("C02.DUPCOL", "(*internal/ingest.MessagePackDecoder).decodeTypedColumns"); fn != nil {
+		n := 0
+		for _, call := range callsIn(fn, false) {
+			if !strings.HasSuffix(callName(call), ".Decoder).Skip") || !blockInCycle(call.Block()) {
+				continue
+			}
+			n++
+			ok := false
+			for _, f := range factsAt(call.(ssa.Instruction)) {
+				if f.Kind != factFalse {
+					continue
+				}
+				if ex, isEx := f.Val.(*ssa.Extract); isEx && ex.Index == 1 {
+					if lk, isLk := ex.Tuple.(*ssa.Lookup); isLk && strings.HasPrefix(lk.X.Type().String(), "map[string]") {
+						ok = true
+					}
+				}
+			}
+			c.Check(ok, "C02.DUPCOL", fmt.Sprintf("decodeTypedColumns|skip#%d-after-duplicate-test", n), call.Pos(), "value skipped only for a first occurrence of the name", "decodeTypedColumns skips a non-array column value before testing whether the name already occurred: `columns: {v:[1,2], v:5}` keeps the array on the typed path while the generic decoder (last key wins) drops the column")
+		}
+		c.Check(n >= 1, "C02.DUPCOL", "decodeTypedColumns|skip-sites", fn.Pos(), "skip site found", "no Skip call found in the column loop (rule needs review)")
+	}
 	c.Rule("C02.COERCE", "SIBLING: the typed decoder's float→int64 element coercion (decodeIntElemAsInt64) executes its conversion under exactly the guards the generic path's toInt64 has for float64 (the same comparisons against the same constants, the same NaN test or none) — if one side starts rejecting a value the other still accepts, the two paths differ in whether the write is accepted and in what is stored")
 	{
 		guardsOf := func(fn *ssa.Function) (map[string]bool, int) {
